@@ -13,6 +13,7 @@
 import Dirk.Lemmas.DkgAlgebra
 import Dirk.Lemmas.DkgLife
 import Dirk.Lemmas.DkgSuccess
+import Dirk.Props.KernelsEq
 
 namespace Dirk.Dkg
 open Polynomial
@@ -78,5 +79,10 @@ theorem C12_generation_succeeds (parts peers order : List Nat) (timeout now : Na
     ∀ i ∈ parts, ∃ x, getInst m.1 i = some x ∧ acct ∈ x.accounts ∧ x.sessions.lookup acct = none := by
   have h := generation_succeeds_fresh parts peers order timeout now acct t init hnd hnz hpeers hlen hdw hinit horder
   exact ⟨h.1, h.2.1, h.2.2.2.1, h.2.2.2.2⟩
+
+/-- **tie by translation.** The parameter check `C12_bounds` is about is the function translated on every run from
+    the three guards at the top of `OnGenerate` (services/process/standard/generate.go), uint32 division included. -/
+theorem C12_kernel_is_source (n t : Nat) : generateAccepts n t = Dirk.Gen.generateAcceptsGen n t :=
+  Dirk.generateAccepts_eq_gen n t
 
 end Dirk.Dkg
